@@ -28,6 +28,8 @@ CLAIMS = {
          "Every path to mode=1 clears the plaintext sender, encrypts metadata++payload and replaces the payload by the age output; no sender-bearing field that an encoder serialises is left set (repaired defect); decrypt results are written only after age decrypt + full read Ok and errors propagate; armor decode needs header, footer, full checksum equality with the encoder's generate_check. AEAD/checksum strength not decided."),
  "C15": ("struct-literal / producer provenance of key ids + cut-set reachability + comparison shape + who-may-call", "4 C15",
          "Key ids of every saved output come from next_child (directly, through the context, or the guarded coinbase candidate / chain rewind data); next_child returns only after save_child_index+commit Ok with the pre-increment index; only next_child and scan move the index, scan only forwards to max+1; no caller swallows a failed bump. Uniqueness over histories as such is not decided."),
+ "C12": ("ADT field tables (XOR masking symmetry, secret-type closure of outward types) + cut-set reachability + producer provenance + backward flag-root analysis", "4 C12",
+         "Each SecretKey field of the stored Context is masked in save and get (2 known findings: initial_sec_*); outward types contain no secret types; the seed file is written only as the sealed EncryptedWalletSeed; decrypt Ok needs AEAD open Ok; password change/recovery order constraints; Context literals only in with_excess with thread_rng/create_secnonce on the production edge, writers of context secrets tabled; every root of use_test_rng is literal false (or true under a flag whose roots are false). RNG quality, nonce collision and byte-level leakage are not decided."),
 }
 
 checks = []
